@@ -47,14 +47,17 @@ def leaf_variants(v, wide=False, hint=None, text=False):
         for x in (0, 1, v + 1, v - 1) + INT_ALPHABET[2:]:
             if x not in seen and x >= 0:
                 seen.add(x)
-                out.append(('int:%d' % x if x < 2 ** 16 else 'int:2^%d%+d' % ((x + 1).bit_length() - 1 if x & (x + 1) == 0 else x.bit_length() - 1, -1 if x & (x + 1) == 0 else 0), x))
+                out.append(('int:%d' % x if x < 2 ** 16 else 'int:%#x' % x, x))
         return out
     if isinstance(v, (bytes, bytearray)):
         t = type(v)
         cands = [('bytes:empty', b''), ('bytes:00', b'\x00'), ('bytes:ff', b'\xff'), ('bytes:+01', bytes(v) + b'\x01'),
-                 ('bytes:-1', bytes(v)[:-1]), ('bytes:len255', b'\xa5' * 255), ('bytes:len256', b'\xa5' * 256)]
+                 ('bytes:-1', bytes(v)[:-1]), ('bytes:len255', b'\xa5' * 255), ('bytes:len256', b'\xa5' * 256),
+                 # boundaries of length fields that share their word with flag bits (SSL 2.0: 14/15 bits, TLS: 2^14)
+                 ('bytes:len16384', b'\x3c' * 16384), ('bytes:len32767', b'\xc3' * 32767)]
         if wide:
-            cands += [('bytes:len65535', b'\x5a' * 65535), ('bytes:len65536', b'\x5a' * 65536)]
+            cands += [('bytes:len16383', b'\x3c' * 16383), ('bytes:len65535', b'\x5a' * 65535),
+                      ('bytes:len65536', b'\x5a' * 65536)]
         seen = {bytes(v)}
         for tag, x in cands:
             if x not in seen:
@@ -373,6 +376,15 @@ def hand_seeds():
     add(lambda: rdp.COTPConnectionConfirm(src_ref=1, user_data=b'', dst_ref=2))
     add(lambda: rdp.COTPConnectionConfirm(src_ref=0x1234, user_data=b'\x01\x02', dst_ref=0))
     add(lambda: rdp.COTPConnectionRequest(src_ref=1, user_data=b'Cookie: mstshash=a\r\n'))
+    try:
+        from cryptodatahub.tls.algorithm import SslCipherKind
+        from cryptoparser.tls import record as rec, subprotocol as sp
+        kinds = list(SslCipherKind)
+        add(lambda: rec.SslRecord(sp.SslHandshakeClientHello(kinds[:2], session_id=b'', challenge=b'\x00' * 16)))
+        add(lambda: rec.SslRecord(sp.SslHandshakeServerHello(b'c' * 32, kinds[:1], b'\x01' * 16)))
+        add(lambda: rec.TlsRecord(b'fragment'))
+    except ImportError:
+        pass
     if hasattr(ext, 'TlsExtensionDelegatedCredentials'):
         cls = ext.TlsExtensionDelegatedCredentials
         inst = harvest_objects.instances_by_class()
